@@ -19,26 +19,29 @@ open Lumina.Model.Ranges (U64_MAX)
 /-- the pruner backlog at which sampling of prunable blocks pauses is the 512 the property states -/
 theorem pruner_threshold_is_512 : Lumina.Gen.C34.PRUNER_THRESHOLD = 512 := by decide
 
+/-- (used by the shared invariant; the number itself is C33's subject) -/
+theorem max_samples_is_16 : Lumina.Gen.C34.MAX_SAMPLES_NEEDED = 16 := by decide
+
 /-- a freshly created worker (any limits, any header chain) satisfies the invariant -/
-theorem init_ok (limit extra maxSamples : Nat) (hdr : Nat → Hdr) :
-    StateOK (init { limit := limit, extra := extra, maxSamples := maxSamples,
+theorem init_ok (limit extra : Nat) (hdr : Nat → Hdr) :
+    StateOK (init { limit := limit, extra := extra, maxSamples := Lumina.Gen.C34.MAX_SAMPLES_NEEDED,
                     prunerThreshold := Lumina.Gen.C34.PRUNER_THRESHOLD } hdr) :=
-  ⟨inv_init _ _, pruner_threshold_is_512⟩
+  ⟨inv_init _ _, pruner_threshold_is_512, max_samples_is_16⟩
 
 /-- **one stimulus.**  From any state satisfying the invariant, for any stimulus with `u64` arguments and
     any outputs of `random_indexes`: the invariant holds afterwards and the monitor accepts every
     action of the worker — in particular every block it starts satisfies `Spec.C34.startOK`. -/
 theorem step_accepted (s : State) (ev : Ev) (rnd : List (List (Nat × Nat))) (hs : StateOK s) (hwf : EvWF ev) :
     Lumina.Spec.C34.specOK (view34 s) ev (step s ev rnd).2 = true ∧ StateOK (step s ev rnd).1 :=
-  ⟨(step_ok hs ev hwf rnd).2, (step_ok hs ev hwf rnd).1⟩
+  ⟨(step_ok hs ev hwf rnd).2.1, (step_ok hs ev hwf rnd).1⟩
 
 /-- **every history.**  Whatever the environment does, in whatever order, for however long: every
     action of the worker is accepted by the monitor. -/
-theorem history_accepted (limit extra maxSamples : Nat) (hdr : Nat → Hdr)
+theorem history_accepted (limit extra : Nat) (hdr : Nat → Hdr)
     (evs : List (Ev × List (List (Nat × Nat)))) (hwf : ∀ e ∈ evs, EvWF e.1) :
-    accepts34 (init { limit := limit, extra := extra, maxSamples := maxSamples,
+    accepts34 (init { limit := limit, extra := extra, maxSamples := Lumina.Gen.C34.MAX_SAMPLES_NEEDED,
                       prunerThreshold := Lumina.Gen.C34.PRUNER_THRESHOLD } hdr) evs = true :=
-  (run_ok evs _ (init_ok limit extra maxSamples hdr) hwf).1
+  (run_ok evs _ (init_ok limit extra hdr) hwf).1
 
 /-- the acceptance of a start, spelled out: whenever the monitor, in view `v`, accepts a
     `metaUpd h` (the first observable action of starting block `h`), `startOK v h` holds -/
@@ -109,7 +112,8 @@ theorem prune_zero_panics (s : State) (rnd : List (List (Nat × Nat))) (hs : Sta
 /-! ### non-vacuity: concrete histories (limit 1, allowance 1; chain of width-2 headers, height 1 outside
     the sampling window) -/
 
-def cfg0 : Cfg := { limit := 1, extra := 1, maxSamples := 16, prunerThreshold := Lumina.Gen.C34.PRUNER_THRESHOLD }
+def cfg0 : Cfg := { limit := 1, extra := 1, maxSamples := Lumina.Gen.C34.MAX_SAMPLES_NEEDED,
+                    prunerThreshold := Lumina.Gen.C34.PRUNER_THRESHOLD }
 def hdr0 : Nat → Hdr := fun h => { width := 2, fresh := decide (1 < h) }
 def s0 : State := init cfg0 hdr0
 def g2 : List Share := [(0,0),(0,1),(1,0),(1,1)]
@@ -156,6 +160,6 @@ set_option maxRecDepth 100000 in
 example : (run s0 h3).2 = [[], [], [], [Tok.scan], [Tok.metaUpd 3 g2, Tok.started 3 2 g2, Tok.req 3 g2]] := by decide
 
 /-- a non-initial state satisfying the hypotheses of `step_accepted` -/
-example : StateOK (run s0 h2).1 := (run_ok h2 s0 (init_ok 1 1 16 hdr0) (by decide)).2
+example : StateOK (run s0 h2).1 := (run_ok h2 s0 (init_ok 1 1 hdr0) (by decide)).2.2
 
 end Lumina.Props.C34
